@@ -30,6 +30,7 @@ CLAUSE → THEOREM TABLE (review R1; property text in properties.jsonl, id C13)
         `C13.predict_rule_same_tuple`, `C13.to_keys`), checked against a first-principles per-tuple refit.
 -/
 import FairModel.Lemmas.Merge
+import FairModel.Lemmas.MergePart
 
 namespace C13
 open Merge
@@ -239,6 +240,51 @@ example : encodeSensitive [['a', ',', 'b']] = .raw ['a', ',', 'b'] ∧
 
 example : encodeSensitive [['1']] = .raw ['1'] := by decide +kernel
 example : encodeSensitive [['1'], ['1', '.', '0']] = .merged ['1', ',', '1', '.', '0'] := by decide +kernel
+
+/-! ### The classes are a partition of the row positions (no row lost, none counted twice, no empty group) -/
+
+/-- **Every row lies in exactly one class**: for every position of the key list there is one class containing
+    it, and any class containing it is that one. -/
+theorem classes_cover_unique {α : Type} [DecidableEq α] (keys : List α) (i : Nat) (hi : i < keys.length) :
+    ∃ c ∈ classes keys, i ∈ c ∧ ∀ c' ∈ classes keys, i ∈ c' → c' = c := by
+  refine ⟨positions keys[i] keys, ?_, ?_, ?_⟩
+  · rw [mem_classes]; exact ⟨keys[i], List.getElem_mem hi, rfl⟩
+  · rw [mem_positions]; exact List.getElem?_eq_getElem hi
+  · intro c' hc' hic'
+    obtain ⟨k, _, rfl⟩ := (mem_classes c' keys).mp hc'
+    rw [mem_positions, List.getElem?_eq_getElem hi] at hic'
+    rw [Option.some.inj hic']
+
+/-- two different classes share no row -/
+theorem classes_disjoint {α : Type} [DecidableEq α] (keys : List α) (c c' : List Nat)
+    (hc : c ∈ classes keys) (hc' : c' ∈ classes keys) (i : Nat) (hi : i ∈ c) (hi' : i ∈ c') : c = c' := by
+  obtain ⟨k, _, rfl⟩ := (mem_classes c keys).mp hc
+  have hlt : i < keys.length := positions_lt k keys i hi
+  obtain ⟨d, _, _, huniq⟩ := classes_cover_unique keys i hlt
+  rw [huniq _ hc hi, huniq _ hc' hi']
+
+/-- classes only contain row positions, and **no class is empty** (the groups are the NON-EMPTY intersections) -/
+theorem classes_nonempty_inrange {α : Type} [DecidableEq α] (keys : List α) (c : List Nat) (hc : c ∈ classes keys) :
+    c ≠ [] ∧ ∀ i ∈ c, i < keys.length := by
+  obtain ⟨k, hk, rfl⟩ := (mem_classes c keys).mp hc
+  exact ⟨(positions_ne_nil k keys).mpr hk, fun i hi => positions_lt k keys i hi⟩
+
+/-- one class per distinct key, each class listed once -/
+theorem classes_count {α : Type} [DecidableEq α] (keys : List α) :
+    (classes keys).length = (distinct keys).length ∧ (classes keys).Nodup := by
+  refine ⟨by simp [classes], ?_⟩
+  unfold classes
+  refine (List.nodup_map_iff_inj_on (distinct_nodup keys)).mpr ?_
+  intro k hk k' _ h
+  exact positions_injective k k' keys ((mem_distinct k keys).mp hk) h
+
+/-- the partition laws for the groups a multi-column table induces through the merged keys -/
+theorem merged_partition (rows : List (List Str)) (i : Nat) (hi : i < rows.length) :
+    ∃ c ∈ classes (mergeColumns rows), i ∈ c ∧ ∀ c' ∈ classes (mergeColumns rows), i ∈ c' → c' = c :=
+  classes_cover_unique (mergeColumns rows) i (by simpa [mergeColumns] using hi)
+
+example : ∃ c ∈ classes ([3, 5, 3] : List Nat), 2 ∈ c := ⟨[0, 2], by decide +kernel, by decide⟩
+example : classes ([3, 5, 3] : List Nat) = [[0, 2], [1]] := by decide +kernel
 
 /-! Non-vacuity and regression examples (evaluated by the kernel). -/
 
